@@ -272,7 +272,8 @@ def run(index: RepoIndex, rep) -> None:
                 cells = positions_of(f.module, wn.expand(rets[0].value),
                                      {f'{p}.y': 0, f'{p}.x': 0})
             except AnalysisError as e:
-                why = str(e)
+                # neighbour offsets the enumerator cannot read are not a verdict
+                raise AnalysisError(f'{name}: neighbour offsets outside the grammar: {e}')
         ok = cells is not None and len(cells) >= 2 and \
             all(dy in (-1, 0, 1) and dx in (-1, 0, 1) for dy, dx in cells)
         rep.check(ok, 'C06.R3', VIS, name,
